@@ -14,6 +14,8 @@ use serde_json::{json, Value};
 pub const POOL: [u32; 6] = [1, 7, 118, 4000, 77_777, 9_999_999];
 /// ascending id pool containing both standard roots within the first two / three ids
 pub const POOL_ROOTS: [u32; 6] = [1, 118, 119, 4000, 77_777, 9_999_999];
+/// consecutive ids (comparisons that are off by one only matter for adjacent values)
+pub const POOL_ADJACENT: [u32; 6] = [1, 2, 3, 4, 5, 6];
 
 /// child_of / parent_of must be exactly closure membership for every ordered pair.
 pub fn check_pairs(ctx: &mut Ctx, ont: &Ontology, r: &RefOnt, path: &str, case: &dyn Fn() -> Value) {
@@ -147,6 +149,13 @@ pub fn run(ctx: &mut Ctx) {
                     let f = Facts { terms: apply_perm(&base.terms, tp), edges: apply_perm(&base.edges, ep), ..base.clone() };
                     run_builder(ctx, &f, &r, "term order x link order");
                 }
+            }
+            // the same graph on consecutive ids (adjacent values): every term order, canonical link order
+            let adj = Facts::from_dag(d, &POOL_ADJACENT);
+            let radj = RefOnt::derive(&adj);
+            for tp in &tperms {
+                let f = Facts { terms: apply_perm(&adj.terms, tp), ..adj.clone() };
+                run_builder(ctx, &f, &radj, "consecutive ids, term order");
             }
             ctx.sample(|| json!({"dag": d.describe(), "ids": &POOL[..n], "term_orders": tperms.len(), "link_orders": eperms.len()}));
         }
